@@ -60,16 +60,30 @@ def theorems_of(prop):
     return re.findall(r'^theorem\s+([A-Za-z0-9_\.\']+)', src, flags=re.M)
 
 
-def forbidden_tokens():
-    """scan all Lean sources (comments removed) for constructs the trusted base excludes"""
+def import_closure(prop):
+    """Lean source files that Props/<prop>.lean transitively imports (within PjVerif)"""
+    seen, todo = set(), [f'PjVerif.Props.{prop}']
+    while todo:
+        m = todo.pop()
+        if m in seen:
+            continue
+        path = os.path.join(LEAN, *m.split('.')) + '.lean'
+        if not os.path.exists(path):
+            continue
+        seen.add(m)
+        for imp in re.findall(r'^import\s+(PjVerif\.[A-Za-z0-9_\.]+)', open(path).read(), flags=re.M):
+            todo.append(imp)
+    return sorted(seen)
+
+
+def forbidden_tokens(prop):
+    """scan the Lean sources the property's theorems depend on (comments removed) for constructs the trusted base excludes"""
     hits = []
-    for root, _, files in os.walk(os.path.join(LEAN, 'PjVerif')):
-        for fn in files:
-            if fn.endswith('.lean'):
-                p = os.path.join(root, fn)
-                for i, line in enumerate(strip_comments(open(p).read()).splitlines()):
-                    if FORBIDDEN.search(line):
-                        hits.append(f"{os.path.relpath(p, LEAN)}:{i + 1}:{line.strip()[:80]}")
+    for m in import_closure(prop):
+        p = os.path.join(LEAN, *m.split('.')) + '.lean'
+        for i, line in enumerate(strip_comments(open(p).read()).splitlines()):
+            if FORBIDDEN.search(line):
+                hits.append(f"{os.path.relpath(p, LEAN)}:{i + 1}:{line.strip()[:80]}")
     return hits
 
 
